@@ -102,11 +102,24 @@ def go_req(rng):
     return (b"v" if rng.random() < 0.95 else b"") + s
 
 
+def recase(rng, label):
+    """NuGet compares labels without regard to case and deps.dev lower-cases them when it prints"""
+    r = rng.random()
+    if r < 0.4:
+        return label.upper()
+    if r < 0.7:
+        return label.title()
+    return bytes(ch ^ 0x20 if (65 <= ch <= 90 or 97 <= ch <= 122) and rng.random() < 0.5 else ch for ch in label)
+
+
 def nuget_version(rng):
-    n = rng.choice([1, 2, 3, 3, 3, 4])
+    n = rng.choice([1, 2, 3, 3, 3, 4, 4])
     s = core(rng, n)
-    if rng.random() < 0.25:
-        s += b"-" + pick(rng, PRE)
+    if rng.random() < 0.3:
+        label = pick(rng, PRE)
+        if rng.random() < 0.4:
+            label = recase(rng, label)
+        s += b"-" + label
     return s
 
 
@@ -117,7 +130,8 @@ def nuget_req(rng):
         return v
     if r < 0.4:
         # floating versions
-        return pick(rng, [b"*", b"1.*", b"1.2.*", b"1.0.0-*", b"1.0.0-beta*", b"1.*-*", b"2.1.*-rc*", b"1.2.3.*"])
+        return pick(rng, [b"*", b"1.*", b"1.2.*", b"1.0.0-*", b"1.0.0-beta*", b"1.*-*", b"2.1.*-rc*", b"1.2.3.*",
+                          b"1.0.0-Beta*", b"2.1.*-RC*", b"1.2.3.4-*", b"1.2.3.4-Alpha*", b"0.0.0.1-*"])
     lo = nuget_version(rng) if rng.random() < 0.8 else b""
     hi = nuget_version(rng) if rng.random() < 0.8 else b""
     lb = pick(rng, [b"[", b"("])
@@ -336,6 +350,8 @@ def bounds_of(text):
         pre = m.group(5)
         if pre is not None and not re.fullmatch(rb"[0-9A-Za-z-]+(\.[0-9A-Za-z-]+)*", pre):
             pre = None
+        if m.group(4) is not None:
+            nums.append(int(m.group(4)))
         out.append((tuple(nums), pre))
     return out
 
@@ -369,6 +385,18 @@ def probes(rng, sysi, texts, n_random=4, cap=28):
         bs += bounds_of(t)
     rng.shuffle(bs)
     for (nums, pre) in bs[:6]:
+        if sysi == 5:
+            # NuGet: four-number versions and labels in another case
+            n4 = (list(nums) + [0])[:4]
+            add(fmt(sysi, n4))
+            add(fmt(sysi, n4[:3] + [n4[3] + 1]))
+            add(fmt(sysi, n4[:3] + [1], b"Alpha"))
+            if pre:
+                add(fmt(sysi, nums, pre.upper()))
+                add(fmt(sysi, nums, pre.title() + b".0"))
+            else:
+                add(fmt(sysi, nums, b"RC.1"))
+        nums = nums[:3]
         add(fmt(sysi, nums, None))
         if pre and sysi not in (3, 6):
             add(fmt(sysi, nums, pre))
@@ -415,3 +443,86 @@ def probes(rng, sysi, texts, n_random=4, cap=28):
             seen.add(v)
             out.append(v)
     return out
+
+
+# ----------------------------------------------------------------------------- probes from dumped spans
+
+INF = 9223372036854775807
+
+
+def span_probes(rng, sysi, spans, have=(), n_neighbours=8):
+    """Probes taken from the BOUNDS OF SETS AS GO HOLDS THEM (gen.cdump.Span objects: operands,
+    results, re-parsed sets), so that bounds which no requirement text spells are probed too:
+    bounds made by inc, by MinVersion, by a merge, with ∞ components.  Every bound is written out
+    (∞ as 2^63-2 and as 2^63-1, a wildcard component as 0) and never cut; of their neighbours
+    (without the prerelease, smallest prerelease, prerelease + .0, last component +-1) a random
+    n_neighbours are kept.  Returns texts not in `have`."""
+    seen = set(have)
+    lits, neigh = [], []
+
+    def add(dst, v):
+        if v not in seen:
+            seen.add(v)
+            dst.append(v)
+
+    for s in spans:
+        if s.rank == 0:
+            continue
+        for v in (s.min, s.max):
+            if v is None:
+                continue
+            nums0 = [0 if n < 0 else n for n in v.nums] or [0]
+            pre = b".".join(v.pre) if v.pre else None
+            variants = [nums0]
+            if INF in nums0:
+                variants = [[INF - 1 if n == INF else n for n in nums0], nums0]
+            for nums in variants:
+                add(lits, fmt(sysi, nums, pre))
+                if pre:
+                    add(neigh, fmt(sysi, nums, None))
+                    add(neigh, fmt(sysi, nums, pre + b".0"))
+                    add(neigh, fmt(sysi, nums, b"0"))
+                else:
+                    add(neigh, fmt(sysi, nums, b"0"))
+                    add(neigh, fmt(sysi, nums, b"rc.1"))
+                last = nums[-1]
+                if last < INF - 1:
+                    add(neigh, fmt(sysi, nums[:-1] + [last + 1]))
+                if 0 < last:
+                    add(neigh, fmt(sysi, nums[:-1] + [last - 1]))
+                if len(nums) < 3:
+                    add(neigh, fmt(sysi, (nums + [0, 0])[:3]))
+    rng.shuffle(neigh)
+    return lits + neigh[:n_neighbours]
+
+
+# ----------------------------------------------------------------------------- set texts (operands with several spans for every system)
+
+def set_text(rng, sysi):
+    """the text form read by ParseSetConstraint, `{[a:b),(c:d],e}`: 1-4 spans in increasing order
+    that do not overlap (20% touch at a shared point), unit spans as a bare version, prerelease
+    bounds, an unbounded last span; this is the only way to hand Go and Cargo (no ||) an operand
+    of several spans"""
+    k = rng.choice([1, 2, 2, 3, 3, 4])
+    pts = set()
+    while len(pts) < 2 * k:
+        pts.add(tuple(rng.choice([0, 1, 2, 3, 9]) if rng.random() > 0.05 else num(rng) for _ in range(3)))
+    pts = sorted(pts)
+    spans = []
+    for j in range(k):
+        lo, hi = pts[2 * j], pts[2 * j + 1]
+        if j > 0 and rng.random() < 0.2:
+            lo = pts[2 * j - 1]                      # touches the span before
+        lo_t = fmt(sysi, lo, pick(rng, PRE) if rng.random() < 0.15 else None)
+        if rng.random() < 0.2:
+            spans.append(lo_t)
+            continue
+        if j == k - 1 and rng.random() < 0.25:
+            inf = "∞".encode()
+            hi_t = pick(rng, [inf + b"." + inf + b"." + inf, b"%d." % hi[0] + inf + b"." + inf])
+            if sysi == 2:
+                hi_t = b"v" + hi_t
+        else:
+            hi_t = fmt(sysi, hi, pick(rng, PRE) if rng.random() < 0.15 else None)
+        spans.append(pick(rng, [b"[", b"[", b"("]) + lo_t + b":" + hi_t + pick(rng, [b")", b")", b"]"]))
+    return b"{" + b",".join(spans) + b"}"
